@@ -628,6 +628,19 @@ func (pool *TxPool) add(tx *types.Transaction, local bool) (replaced bool, err e
 		invalidTxMeter.Mark(1)
 		return false, err
 	}
+	// A same-nonce replacement that does not meet the price bump is going to be
+	// rejected: find that out before any other transaction is discarded to make
+	// room for it.
+	from, _ := types.Sender(pool.signer, tx) // already validated
+	if list := pool.pending[from]; list != nil && list.Overlaps(tx) {
+		if !list.replaceable(tx, pool.config.PriceBump) {
+			pendingDiscardMeter.Mark(1)
+			return false, ErrReplaceUnderpriced
+		}
+	} else if list := pool.queue[from]; list != nil && !list.replaceable(tx, pool.config.PriceBump) {
+		queuedDiscardMeter.Mark(1)
+		return false, ErrReplaceUnderpriced
+	}
 	// If the transaction pool is full, discard underpriced transactions
 	if uint64(pool.all.Slots()+numSlots(tx)) > pool.config.GlobalSlots+pool.config.GlobalQueue {
 		// If the new transaction is underpriced, don't accept it
@@ -665,7 +678,6 @@ func (pool *TxPool) add(tx *types.Transaction, local bool) (replaced bool, err e
 		}
 	}
 	// Try to replace an existing transaction in the pending pool
-	from, _ := types.Sender(pool.signer, tx) // already validated
 	if list := pool.pending[from]; list != nil && list.Overlaps(tx) {
 		// Nonce already pending, check if required price bump is met
 		inserted, old := list.Add(tx, pool.config.PriceBump)
